@@ -124,6 +124,16 @@ def build(r, cls):
     if cls is ml.Molecule and r.get("decl"):
         # total charge / multiplicity declared at molecule level (not derivable from per-atom annotations), name, attributes
         kw.update(charge=r["decl"][0], mult=r["decl"][1], name="declared")
+    if r.get("transmute"):
+        # every atom started its life as ANOTHER element, was looked at (radii queried, as the display and bond-length helpers do) and
+        # was then given the element of the recipe by assignment: the structure is the recipe's
+        from molli.chem import Element
+        finals = [a_.element for a_ in atoms]
+        for a_ in atoms:
+            a_.element = Element.C if int(a_.element) != 6 else Element.N
+            _ = (a_.cov_radius_1, a_.vdw_radius)
+        for a_, e_ in zip(atoms, finals):
+            a_.element = e_
     m = cls(atoms, coords=coords, **kw)
     if cls is ml.Molecule and r.get("decl"):
         m.attrib["note"] = "kept"
@@ -335,7 +345,7 @@ def strat_grown(tier):
     return st.fixed_dictionaries({
         "cls": st.sampled_from(["Molecule", "Molecule", "Structure"]), "root": root, "nodes": st.lists(node, min_size=0, max_size=12),
         "gseed": st.integers(0, 10**6), "orient": st.sampled_from(["random", "random", "as_built", "first_bond_along_z"]),
-        "wrapped": st.sampled_from([0, 0, 0, 1, 2]),
+        "wrapped": st.sampled_from([0, 0, 0, 1, 2]), "transmute": st.sampled_from([False, False, True]),
         "subset": st.one_of(st.none(), st.none(), st.tuples(st.integers(1, 2**16 - 1), st.booleans()).map(list)),
         "decl": st.one_of(st.none(), st.tuples(st.integers(-2, 2), st.integers(1, 4)).map(list)),
     })
